@@ -35,13 +35,19 @@ TABLE = {
 }
 
 
+# numeric Dynamic parameters accept a callable as a dynamic value generator (by design);
+# every other type treats a callable like any other ill-typed value
+DYNAMIC_NUMERIC = {"param.parameters.Number", "param.parameters.Integer", "param.parameters.Magnitude"}
+
+
 def run_type(ctx, q):
     hier = ctx.hier
     f = hier.resolve(q, "_validate")
     name = q.rsplit(".", 1)[-1]
     n = 0
     bad = []
-    for allow_none, kind in itertools.product([True, False], ["none", "ok", "bad"]):
+    accepts_callables = TABLE[q] == "callable" or q in DYNAMIC_NUMERIC
+    for allow_none, kind in itertools.product([True, False], ["none", "ok", "bad", "callable"]):
         val = None if kind == "none" else Obj("value_" + kind, __iter__=[Obj("element")])
         self_obj = Obj(name, allow_None=allow_none, bounds=None, inclusive_bounds=(True, True), softbounds=None, step=None,
                        regex=None, length=LO, item_type=None, is_instance=True, class_=Obj("declared_class"), allow_named=True,
@@ -49,6 +55,8 @@ def run_type(ctx, q):
 
         def hook(fn, args, kwargs, val=val, kind=kind):
             subject = args[0] if args else None
+            if fn == "callable" and (subject is val or subject is None):
+                return kind == "callable" or (kind == "ok" and TABLE[q] == "callable")
             if fn in ("isinstance", "_is_number", "callable", "issubclass"):
                 if subject is val or subject is None:
                     return kind == "ok"
@@ -68,7 +76,7 @@ def run_type(ctx, q):
         except Unsupported as e:
             raise AnalysisError("absint cannot interpret the validators of %s: %s -- R01.h cannot decide" % (name, e))
         n += 1
-        want = allow_none if kind == "none" else (kind == "ok")
+        want = allow_none if kind == "none" else (accepts_callables if kind == "callable" else kind == "ok")
         for o in outs:
             if o.imprecise:
                 raise AnalysisError("absint imprecise on the validators of %s (allow_None=%s, value %s): %s" % (name, allow_none, kind, o.notes[:2]))
@@ -78,7 +86,8 @@ def run_type(ctx, q):
     ctx.abstract_cases += n
     if bad:
         an, kind, got = bad[0]
-        what = {"none": "None", "ok": "a value of the declared type", "bad": "a value of a different type"}[kind]
+        what = {"none": "None", "ok": "a value of the declared type", "bad": "a value of a different type",
+                "callable": "a callable that is not of the declared type"}[kind]
         ctx.fail("R01.h", f, f.node, "%s with allow_None=%s %s %s (specification: %s)" % (
             name, an, "accepts" if got else "rejects", what, "reject" if got else "accept"),
             key="%s::type-none-table::%s::%s" % (q, kind, "accept" if got else "reject"),
